@@ -186,12 +186,29 @@ def run(tier):
             suite.identity('caps.defining_tensor[%s]' % t, entries(mat(F2(Diagram.caps(t, t.l)))),
                            entries(mat(Tensor.caps(FT(t), FT(t.l)))), functions=fq + ['tensor.Tensor.caps'],
                            what='F(caps(t, t.l)) is Tensor.caps(F(t), F(t.l))')
+        # an object sent to a Dim that is not a palindrome: its adjoints are sent to the reversed Dim, so that cups, caps
+        # and snakes on it are interpreted by their defining tensors
+        with suite.guard('non-palindromic Dim for one object', fq):
+            q = Ty('q')
+            F3 = tensor.Functor({q: Dim(2, 3)}, {})
+            suite.fact('F(q.r) is F(q).r for a non-palindromic Dim', F3(q.r) == Dim(3, 2) and F3(q.l) == Dim(3, 2)
+                       and F3(q.r.r) == Dim(2, 3), functions=fq, what='the object map commutes with adjoints')
+            suite.identity('cups.defining_tensor[q -> Dim(2, 3)]', entries(mat(F3(Diagram.cups(q, q.r)))),
+                           entries(mat(Tensor.cups(Dim(2, 3), Dim(3, 2)))), functions=fq + ['tensor.Tensor.cups'])
+            snake = Diagram.caps(q, q.l) @ Id(q) >> Id(q) @ Diagram.cups(q.l, q)
+            suite.identity('snake[q -> Dim(2, 3)]', entries(mat(F3(snake))), entries(mat(Tensor.id(Dim(2, 3)))),
+                           functions=fq, what='the snake equation holds under the interpretation')
     DIMS = saved
     # sums, spiders, bubbles, Diagram.eval
     with suite.guard('sum', fq):
         d1, d2 = f >> e, f >> f.dagger() >> f >> e
         suite.identity('eval.sum', entries(mat(F(d1 + d2))), entries(layered(d1, arrays) + layered(d2, arrays)),
                        extra=syms, functions=fq + ['tensor.Sum.eval'], what='sums are interpreted termwise')
+    with suite.guard('empty sum', ['tensor.Sum.eval']):
+        z0 = tensor.Sum([], Dim(2), Dim(3)).eval()
+        suite.fact('eval.sum.empty', isinstance(z0, tensor.Tensor) and (z0.dom, z0.cod) == (Dim(2), Dim(3))
+                   and not numpy.any(numpy.array(z0.array, dtype=complex)),
+                   what='the empty sum evaluates to the zero tensor of its type (got %r)' % (z0,), functions=['tensor.Sum.eval'])
     with suite.guard('tensor boxes', ['tensor.Diagram.eval']):
         v = tensor.Box('v', Dim(1), Dim(2), arrays[s])
         m = tensor.Box('m', Dim(2), Dim(3), arrays[f])
@@ -200,12 +217,17 @@ def run(tier):
         suite.identity('Diagram.eval[tensor boxes]', entries(mat(d.eval())), entries(want), extra=syms,
                        functions=['tensor.Diagram.eval', 'tensor.Box.array'],
                        what='a diagram of tensor boxes evaluates through the identity-on-arrays functor')
-        for legs in [(1, 2), (2, 1), (0, 2), (3, 1)]:
+        for legs in [(1, 2), (2, 1), (0, 2), (3, 1), (0, 1), (1, 0), (0, 0)]:
             sp = tensor.Spider(legs[0], legs[1], 2)
             want_sp = sympy.zeros(2 ** legs[1], 2 ** legs[0])
             for i in range(2):
                 want_sp[int(str(i) * legs[1] or '0', 2), int(str(i) * legs[0] or '0', 2)] = 1
+            if legs == (0, 0):
+                want_sp = sympy.Matrix([[2]])       # the defining tensor of a leg-less spider: sum_i 1 = dim
             suite.identity('Spider%s' % (legs,), entries(mat(sp.eval())), entries(want_sp), functions=['tensor.Spider.__init__'])
+        suite.identity('Spider.fusion(0,1,0)', entries(mat((tensor.Spider(0, 1, 3) >> tensor.Spider(1, 0, 3)).eval())),
+                       entries(mat(tensor.Spider(0, 0, 3).eval())), functions=['tensor.Spider.__init__'],
+                       what='spider fusion down to no legs: Spider(0, 1) >> Spider(1, 0) == Spider(0, 0)')
         # a numeric bubble whose function returns values of different python types on different entries
         nv = tensor.Box('nv', Dim(2), Dim(3), [0, 1, 2, 4, 0, 5])
         nb = nv.bubble(func=lambda t: 1 / t if t else 0)
